@@ -9,10 +9,10 @@ ROOT = os.path.dirname(os.path.dirname(os.path.abspath(__file__)))
 MC = "model_checking"
 CHECKS = {
     "C01": dict(level=MC, design="5/C01", technique="TLA+ register-machine spec (KyberAlgebra, law programs) model-checked with TLC; TLC-generated behaviours replayed on all 21 group instances under homomorphic bindings",
-                text="TLC checks the group and scalar-action laws on the free-algebra model for every operand-class tuple and generates every single-operation program plus simulated chains; each is replayed on every group instance with several bindings of the indeterminate and the result compared with an independently built canonical value. Exhaustive in programs and operand classes, edge-biased in operand values.",
+                text="TLC checks the group and scalar-action laws on the free-algebra model for every operand-class tuple and generates every single-operation program plus simulated chains; each is replayed on every group instance with several bindings of the indeterminate and the result compared with an independently built canonical value; every run starts with a first-use probe (group constants are values, not storage shared with the first object that asked). Exhaustive in programs and operand classes, edge-biased in operand values.",
                 note="trusted: TLC, the harness-side canonical route (double-and-add over the library's Add on fresh operands), math/big, the static group-order table; operand values are an edge-biased pool reached through the binding, not all of Z_q"),
     "C02": dict(level=MC, design="5/C02", technique="TLA+ Laurent-polynomial scalar spec model-checked with TLC; behaviours replayed on every scalar implementation with absolute math/big oracle",
-                text="Every scalar program of length 2 over two registers with every aliasing (exhaustive) and simulated programs of length 9 are replayed on each of the 9 scalar implementations; after each step the receiver's encoding must equal the fixed-width encoding of eval(abstract, u) mod q.",
+                text="Every scalar program of length 2 over two registers with every aliasing (exhaustive) and simulated programs of length 9 are replayed on each of the 9 scalar implementations; after each step the receiver's encoding must equal the fixed-width encoding of eval(abstract, u) mod q. TinyField gives the exact Z_m tables (m = 2..17, all operand pairs, aliasings, SetInt64, SetBytes) on the default build and, for odd moduli, on the constantTime build.",
                 note="trusted: TLC, math/big, static byte-order/order table; Inv/Div only by monomials c*u^k"),
     "C03": dict(level=MC, design="5/C03", technique="TLA+ spec (KyberAlgebra codec mode) model-checked with TLC; behaviours with encode/decode steps replayed through all three codec paths on all groups",
                 text="Values built on several routes (non-normalised internal forms) are encoded and decoded between all register pairs through MarshalBinary, MarshalTo/UnmarshalFrom and the hex helpers; lengths, byte-identity across paths, round trip, canonicity (Equal iff same bytes) and non-mutation are compared with the model after every step.",
@@ -24,7 +24,7 @@ CHECKS = {
                 text="TLC checks bilinearity, additivity, identity and non-degeneracy on the bilinear-form model and generates all behaviours (operand classes incl. identity and generators, two pairings or GT operations, ValidatePairing) without pre-ops exhaustively and with arithmetic pre-ops by simulation; each pairing result must equal the form evaluated over four atom pairings by GT double-and-add, and ValidatePairing must equal equality of the forms.",
                 note="trusted: TLC, GT double-and-add over the library's GT Add, the four atom pairings per binding; operands are small Laurent combinations of atoms under edge-biased bindings"),
     "C17": dict(level=MC, design="5/C17", technique="TLA+ spec of stream handles and point provenance (PickEmbed) model-checked with TLC; behaviours replayed on all groups with scripted adversarial streams; RFC 9380 vectors as fixed behaviours",
-                text="The spec makes a stream's state its whole past, so two handles with equal pasts must yield Equal points; TLC enumerates all 2-step (simulated 6-step) sequences of NewStream/CopyStream/Pick/Embed/Hash/Codec and predicts for each produced point its relation to the other register and the bytes Data must return; the replayer checks q*P=O, determinism, losslessness (also after encode/decode), distinctness, Data range errors, and the RFC 9380 vectors on every implementation.",
+                text="The spec makes a stream's state its whole past, so two handles with equal pasts must yield Equal points; TLC enumerates all 2-step (simulated 6-step) sequences of NewStream/CopyStream/Pick/Embed/Hash/Codec and predicts for each produced point its relation to the other register and the bytes Data must return; the replayer checks q*P=O, determinism, losslessness (also after encode/decode), distinctness, Data range errors, the RFC 9380 vectors on every implementation, and a sweep of thousands of messages through every hash-to-group route (member, canonical, function of the message).",
                 note="trusted: TLC, canonical route for q*P, blake2xb XOF as stream source, RFC vector files copied from circl testdata and the RFC appendix; collisions assumed negligible"),
     "C18": dict(level=MC, design="5/C18", technique="TLC-generated KyberAlgebra programs executed on every implementation of each group family and on three build variants; encodings / transcripts compared step by step and against math/big reference curves",
                 text="One program file generated by TLC from the KyberAlgebra spec is the shared input of every implementation: members of a family run it with the same binding and atoms and must produce identical encodings after every step, equal to an independent arbitrary-precision model where one exists; the BLS12-381 back-ends must also agree on hash-to-curve, pairings and BLS signatures; the transcript binary built with tags default/generic/constantTime must print identical lines on common sections.",
